@@ -53,7 +53,7 @@ func (p *Prog) VerifyFunc(fi *FuncInfo, fc *FuncContract) (res *FuncResult) {
 	c := NewCtx()
 	x := &fnv{p: p, fi: fi, fc: fc, pkg: fi.Pkg, info: fi.Pkg.TypesInfo, c: c, h: NewHeap(c), counters: map[string]int{},
 		loopOrd: map[ast.Node]int{}, callOrd: map[string]int{}, boxedVar: map[types.Object]bool{}, assumed: map[string]bool{},
-		atDone: map[*AtClause]int{}, litOfVar: map[types.Object]*ast.FuncLit{}, activeLoops: map[int]*loopCtx{}}
+		atDone: map[*AtClause]int{}, litOfVar: map[types.Object]*ast.FuncLit{}, activeLoops: map[int]*loopCtx{}, tids: map[string]types.Type{}, ifaces: map[string]types.Type{}}
 	defer func() {
 		if r := recover(); r != nil {
 			switch e := r.(type) {
@@ -71,6 +71,7 @@ func (p *Prog) VerifyFunc(fi *FuncInfo, fc *FuncContract) (res *FuncResult) {
 		sort.Strings(res.Assumed)
 		res.Obligations = x.obls
 	}()
+	x.h.ImplOf = func(v *Term, t types.Type) *Term { return x.implements(x.dyn(v), t) }
 	x.prepass(fi.Body)
 	s := &State{vars: map[types.Object]Value{}, mem: map[string]*Mem{}, ghost: map[string]Value{}, typed: map[*Term]bool{}}
 	s.allocTop = c.Const("top0", SInt)
@@ -98,12 +99,30 @@ func (p *Prog) VerifyFunc(fi *FuncInfo, fc *FuncContract) (res *FuncResult) {
 	} else {
 		ftype = fi.Lit.Type
 	}
+	pi := 0
 	for _, fld := range ftype.Params.List {
-		for _, nm := range fld.Names {
-			if o, ok := x.info.Defs[nm].(*types.Var); ok {
-				bindParam(o)
-			}
+		names := fld.Names
+		if len(names) == 0 {
+			names = []*ast.Ident{nil}
 		}
+		for _, nm := range names {
+			var val Value
+			if nm != nil {
+				if o, ok := x.info.Defs[nm].(*types.Var); ok {
+					bindParam(o)
+					val = paramVals[o.Name()]
+				}
+			}
+			if val.T == nil && pi < fi.Sig.Params().Len() {
+				// blank or unnamed parameter: still an (arbitrary) input, addressable as argN in the contract
+				val = x.h.freshValue(s, fi.Sig.Params().At(pi).Type(), fmt.Sprintf("in_arg%d", pi))
+			}
+			paramVals[fmt.Sprintf("arg%d", pi)] = val
+			pi++
+		}
+	}
+	if fi.Recv != nil {
+		paramVals["recv"] = paramVals[fi.Recv.Name()]
 	}
 	fr := &frame{fi: fi}
 	fr.results = x.resultVars(s, fi.Sig, ftype.Results)
@@ -131,8 +150,14 @@ func (p *Prog) VerifyFunc(fi *FuncInfo, fc *FuncContract) (res *FuncResult) {
 	for _, cl := range fc.Requires {
 		env := x.newSpecEnv(s, s, fi.Pkg.PkgPath)
 		env.pos = x.curPos
+		for n, v := range paramVals {
+			if v.T != nil {
+				env.vars[n] = v
+			}
+		}
 		s.Assume(env.assumption(cl.Expr))
 	}
+	x.paramVals = paramVals
 	x.entry = s.Clone()
 	x.cover(s, "pre", fi.Body.Lbrace)
 
@@ -195,7 +220,9 @@ func (x *fnv) checkPost(st *State, fr *frame, paramVals map[string]Value, idx in
 		env := x.newSpecEnv(st, x.entry, x.fi.Pkg.PkgPath)
 		env.pos = x.fi.Body.Lbrace + 1
 		for n, v := range paramVals {
-			env.vars[n] = v
+			if v.T != nil {
+				env.vars[n] = v
+			}
 		}
 		for i, rv := range fr.results {
 			val := x.readVar(st, rv)
@@ -419,7 +446,7 @@ func (p *Prog) VerifyLemma(lm *Lemma) (res *FuncResult) {
 	fi := &FuncInfo{Pkg: pk, Key: "lemma." + lm.Name}
 	x := &fnv{p: p, fi: fi, fc: &FuncContract{PkgPath: lm.PkgPath, Props: lm.Props, Skip: map[string]bool{}}, pkg: pk, info: pk.TypesInfo, c: c, h: NewHeap(c),
 		counters: map[string]int{}, loopOrd: map[ast.Node]int{}, callOrd: map[string]int{}, boxedVar: map[types.Object]bool{}, assumed: map[string]bool{},
-		atDone: map[*AtClause]int{}, litOfVar: map[types.Object]*ast.FuncLit{}, activeLoops: map[int]*loopCtx{}}
+		atDone: map[*AtClause]int{}, litOfVar: map[types.Object]*ast.FuncLit{}, activeLoops: map[int]*loopCtx{}, tids: map[string]types.Type{}, ifaces: map[string]types.Type{}}
 	defer func() {
 		if r := recover(); r != nil {
 			switch e := r.(type) {
